@@ -50,3 +50,15 @@ Definition verdict (c : bytes * option bytes * bool * bool * bool * list (N * lr
    else if negb parse_ok then 1
    else if wf then (if text_ok then (if model_ok then (if bytes_ok then 0 else 4) else 1) else 2)
    else (if model_ok then (if bytes_ok || ambiguous then 3 else 4) else 1)).
+
+(* mutated .symindex files: the model of parse_symindex_file and the implementation agree on acceptance, and on the tables read
+   (compared through their canonical re-serialization).  The model covers the tables, not the MODULE line inside the module-info
+   text, so an implementation error of that kind on a file the model accepts is not a difference. *)
+Definition verdict_idx (c : bytes * option bytes * bool) : N :=
+  let '(b, obs, module_line_error) := c in
+  match parse_symindex b, obs with
+  | None, None => if module_line_error then 1 else 0
+  | None, Some _ => 1
+  | Some p, Some ob => if bytes_eqb (serialize p) ob then 0 else 1
+  | Some _, None => if module_line_error then 0 else 1
+  end.
